@@ -570,6 +570,22 @@ def extract_streams(kinds, nq, nt):
     return streams
 
 
+def trainnew_classify(line, impl, mobs, extra):
+    """five seed files -> label feature sets of Trainer::new (hook trainer_labels) against Model/TrainerNew.lean, whose
+    result is characterised by C18new.label_sets_spec (every label's set is the expansion of the row's OWN features
+    through the rewriter of the respective section) and C18new.rewriters_of_sections / section_rewrite_spec (C17 in context)"""
+    flags = pflags(extra)
+    info = {"tags": ["kind=" + flags.get("KIND", "?"), "impl=" + impl.split()[0]], "nontrivial": impl.startswith("okfull")}
+    if impl != mobs:
+        if impl.startswith("okfull") and mobs.startswith("okfull"):
+            info["prop_fail"] = "label-feature-sets-differ-from-the-rows-own-expansions"
+            info["why"] = "the feature sets / interning maps registered by Trainer::new differ from the expansion of each row's own (rewritten) features"
+        elif impl.split()[0] == "panic" and mobs.split()[0] != "panic":
+            info["prop_fail"] = "trainer-config-panic"
+            info["why"] = "TrainerConfig::from_readers / Trainer::new panicked where the model returns a value or an error"
+    return info
+
+
 def c17_streams(tier, seed):
     """the rewriter alone, and the three rule sections in their context (Trainer::extract_feature_set: each section is
     applied to the entry's OWN features, not to another section's result)"""
@@ -581,7 +597,9 @@ def c17_streams(tier, seed):
             return {"tags": [], "nontrivial": False, "ignore": True}
         return inner(line, impl, mobs, extra)
     return [(["rewrite", str(seed), "3000" if q else "200000"], rewrite_classify),
-            (["extract", str(seed), "1200" if q else "40000"], featset_only)]
+            (["extract", str(seed), "1200" if q else "40000"], featset_only),
+            # rewrite.def as a file, its three sections applied by Trainer::new to every lexicon / unk.def row
+            (["trainnew", str(seed), "800" if q else "30000"], trainnew_classify)]
 
 
 def c18_streams(tier, seed):
@@ -590,7 +608,9 @@ def c18_streams(tier, seed):
             # interning after a reload (next-id counters) and the class tables of real models
             (["train", "quick", str(seed), "20" if q else "600"], train_classifier("C18")),
             # the same through the real dictgen program
-            (["cli", str(seed), "12" if q else "400"], cli_classifier({"train": train_classifier("C18")}, ()), {"cli": True})]
+            (["cli", str(seed), "12" if q else "400"], cli_classifier({"train": train_classifier("C18")}, ()), {"cli": True}),
+            # seed files -> labels (Trainer::new), full observation before training
+            (["trainnew", str(seed + 1), "800" if q else "30000"], trainnew_classify)]
 
 
 def cli_classifier(inner, prefixes):
@@ -744,13 +764,18 @@ PROPS = {
                         "hypotheses of the theorem: weight_abs_max > 0 and EPS*32767 <= weight_abs_max (the EPSILON cut)"],
     },
     "C18": {
-        "modules": ["Vibrato.Props.C18"],
+        "modules": ["Vibrato.Props.C18", "Vibrato.Props.C18new"],
         "theorems": ["Vibrato.Props.C18.expand_spec", "Vibrato.Props.C18.template_reading_exists",
                      "Vibrato.Props.C18.template_reading_unique", "Vibrato.Props.C18.optional_none_iff",
                      "Vibrato.Props.C18.expand_parsed_ne_panic", "Vibrato.Props.C18.intern_injective",
                      "Vibrato.Props.C18.ids_equal_iff_strings_equal", "Vibrato.Props.C18.history_ids",
                      "Vibrato.Props.C18.id_tuples_eq_iff", "Vibrato.Props.C18.classes_spec",
-                     "Vibrato.Props.C18.tuple_listed", "Vibrato.Props.C18.classTable_first_appearance"],
+                     "Vibrato.Props.C18.tuple_listed", "Vibrato.Props.C18.classTable_first_appearance",
+                     # seed files -> label feature sets (TrainerConfig::from_readers + Trainer::new)
+                     "Vibrato.Props.C18new.label_sets_spec", "Vibrato.Props.C18new.rewriters_of_sections",
+                     "Vibrato.Props.C18new.section_rewrite_spec", "Vibrato.Props.C18new.label_rows_of_files",
+                     "Vibrato.Props.C18new.classes_of_rows", "Vibrato.Props.C18new.class_row_listed",
+                     "Vibrato.Props.C18new.labels_total", "Vibrato.Props.C18new.fromReaders_total"],
         "streams": c18_streams,
         "rule": "random template sets (placeholders %F[i] %F?[i] %t %L %R incl. malformed and adjacent forms) x feature rows "
                 "(quoted cells, short rows) through FeatureExtractor (hook), whole extraction sessions with interning, "
